@@ -55,7 +55,7 @@ def generate(rng, tier, rep):
         li = rng.randrange(len(c['layers']))
         c['tests'].append({'layer': li})
         how = rng.choice(['exit0', 'exit3', 'kill', 'segv'])
-        where = ['import', 'setUp', 'body', 'tearDown', 'report', 'spawn', 'kbd_body', 'kbd_setUp', 'tsetup_raise', 'import_raise', 'spawn_nul'][i % 11]
+        where = ['import', 'setUp', 'body', 'tearDown', 'report', 'spawn', 'kbd_body', 'kbd_setUp', 'tsetup_raise', 'import_raise', 'spawn_nul', 'body_nonascii'][i % 12]
         if where == 'import':
             c['die_import'] = how
         elif where == 'setUp':
@@ -80,6 +80,13 @@ def generate(rng, tier, rep):
         elif where == 'tsetup_raise':
             c['layers'][li].setdefault('hooks', {})['testSetUp'] = ['raise']
             how = 'exc'
+        elif where == 'body_nonascii':
+            # the child dies after writing non-ASCII text to its stderr; the parent shows it (-v) on a stdout that can only
+            # encode ASCII: whatever happens while it is shown, the layer's error must have been recorded
+            c['tests'][-1]['body'] = ['die', how]
+            c['tests'][-1]['writes'] = {'body': [['fd2', 'caf\u00e9 \u4e2d\u6587\n']]}
+            c['options'] = [o for o in c['options'] if not o.startswith('-v')] + ['-v']
+            c['stdout_encoding'] = 'ascii'
         elif where == 'spawn_nul':
             # not startable for another reason than the OS refusing (an argument with a NUL in it)
             c['layers'][li]['name'] = c['layers'][li]['name'] + '\x00z'
